@@ -816,6 +816,8 @@ class RfcommBed(Bed):
         self.server = rfcomm.Server(self.vic)
         ch = self.server.listen(self.make_app, channel=self.CHANNEL)
         assert ch == self.CHANNEL
+        # a second, echoing acceptor: data links the peer negotiates itself (hostile parameters) get used
+        self.server.listen(lambda dlc: setattr(dlc, 'sink', lambda data: dlc.write(bytes(data))), channel=self.CHANNEL + 1)
 
         async def go():
             mux = await rfcomm.Client(self.a_conn).start()
